@@ -83,12 +83,14 @@ class _Proxy:
         self.nid = nid
 
     def get_left(self, key):
+        r = self.store.child(key, 0)      # raises for a leaf key: an unanswered query is not memoised
         self.store.log.append((self.nid, 'L'))
-        return self.store.child(key, 0)
+        return r
 
     def get_right(self, key):
+        r = self.store.child(key, 1)
         self.store.log.append((self.nid, 'R'))
-        return self.store.child(key, 1)
+        return r
 
     def is_leaf(self, key):
         self.store.log.append((self.nid, 'leaf?'))
